@@ -482,6 +482,12 @@ class Engine:
                     res = z3.BoolVal((l is None and r is None) == isinstance(op, ast.Is))
                 else:
                     raise OutOfSubset("is")
+            elif isinstance(op, (ast.In, ast.NotIn)):
+                if isinstance(r, tuple) and is_num(l) and all(is_num(v) for v in r):
+                    mem = z3.Or(*[to_num(l) == v for v in r]) if r else z3.BoolVal(False)   # membership in a tuple of numbers
+                    res = mem if isinstance(op, ast.In) else z3.Not(mem)
+                else:
+                    raise OutOfSubset("membership test on this value")
             else:
                 if is_bool(l) and is_bool(r) and isinstance(op, (ast.Eq, ast.NotEq)):
                     res = (l == r) if isinstance(op, ast.Eq) else (l != r)
